@@ -471,6 +471,39 @@ def rule_K(run, prog, m):
                            message="%s switches the data flag (%s) and does not restore it in a finally clause: the next plain read "
                                    "(data, get_max_value, the pump-probe spectrum) returns the cell addressed last instead of what "
                                    "it returned before" % (fn.short, why), loc=fn.loc(fn.node), sample={"switches": len(sets) + len(helper_sets)})
+    # what is saved is the whole flag: every attribute set_data_flag writes from its argument
+    sdf = base.methods["set_data_flag"]
+    parts = sorted({t_.attr for x in ast.walk(sdf.node) if isinstance(x, ast.Assign) for t_ in x.targets
+                    if isinstance(t_, ast.Attribute) and norm(t_.value) == "self"
+                    and any(isinstance(y, ast.Name) and y.id == sdf.node.args.args[1].arg for y in ast.walk(x.value))})
+    if "current_dtype" not in parts or len(parts) < 2:
+        raise AnalysisError("set_data_flag: the parts of the flag (type and tag) not found: %s" % parts)
+    k = 0
+    for cl in (base, cls):
+        for nme, fn in cl.methods.items():
+            if nme == "set_data_flag":
+                continue
+            assigns = {}
+            for x in walk_no_nested(fn.node):
+                if isinstance(x, ast.Assign) and len(x.targets) == 1 and isinstance(x.targets[0], ast.Name):
+                    assigns.setdefault(x.targets[0].id, []).append(x)
+            for x in walk_no_nested(fn.node):
+                if not (isinstance(x, ast.Call) and norm(x.func) == "self.set_data_flag" and x.args and isinstance(x.args[0], ast.Name)):
+                    continue
+                nm = x.args[0].id
+                srcs = assigns.get(nm, [])
+                read = {y.attr for a_ in srcs for y in ast.walk(a_.value) if isinstance(y, ast.Attribute) and norm(y.value) == "self"}
+                if "current_dtype" not in read:
+                    continue        # not a restore of a saved flag
+                k += 1
+                missing = [p_ for p_ in parts if p_ not in read]
+                run.obligation(rid, fn.short, not missing, key="whole-flag-saved:" + nm,
+                               message="%s saves the data flag in `%s` from self.current_dtype alone and restores it with set_data_flag(%s): "
+                                       "the flag has the parts %s, and a plain type resets self.%s - a pathway view [type, tag] in force "
+                                       "before the call reads the sum of all pathways of the type afterwards"
+                                       % (fn.short, nm, nm, parts, (missing or [""])[0]), loc=fn.loc(x), sample={"saved_from": sorted(read)})
+    if k < 2:
+        raise AnalysisError("C19-K: only %d restores of a saved flag found (3 confirmed)" % k)
 
 def _fold(m, node, env):
     if isinstance(node, ast.Constant):
